@@ -61,6 +61,16 @@ func (w *world) tick() (n int) {
 	return w.clock
 }
 
+// slowMetrics is a metrics collector that takes its time: other tasks get to
+// run during each of its calls.
+type slowMetrics struct{ s *kernel.Sim }
+
+func (m *slowMetrics) BufferSizeSet(context.Context, float64) { m.s.Yield("metrics-buffer-size") }
+
+func (m *slowMetrics) HandleUploadDuration(context.Context, float64, bool) {
+	m.s.Yield("metrics-upload-duration")
+}
+
 type uploader struct{ w *world }
 
 // refreshCtxKey carries the invoke stamp of the Refresh call to Upload.
@@ -230,7 +240,7 @@ func run(s *kernel.Sim, _, cfg string) {
 		Logger:   slog.New(slog.DiscardHandler),
 		ErrColl:  nopErrColl{},
 		Uploader: &uploader{w: w},
-		Metrics:  billstat.EmptyMetrics{},
+		Metrics:  &slowMetrics{s: s},
 	})
 
 	nDev := t.Range(1, 4, "devices")
